@@ -1,51 +1,104 @@
 namespace PqModel.Seek
 
-/-! Spike: FilePages.SeekToRow / ReadPage at page granularity (offset-index path, v2 pages). -/
+/-! # FilePages.SeekToRow / ReadPage at page granularity (C08)
+
+A column chunk is the list of the row counts of its data pages (`Chunk.rows`) plus whether the
+chunk metadata records a dictionary page offset (`Chunk.dict`, Go `f.dictOffset > 0`).
+Stream positions are counted in data pages instead of bytes: `St.pos` is the page the section
+reader / bufio reader will actually decode next, `St.index` is what the code *believes* that page
+to be (`f.index`). The cached page is `St.last = some (lastPageIndex, page actually cached)`.
+
+* MIRROR (transliteration of the Go code as it stands): `seekAsis`, `readLoop`, `readPage`, `stepAsis`.
+* MIRROR of the repaired code (proposed_fixes/F11.diff): `seekFixed`, `stepFixed` (ReadPage is unchanged).
+* SPEC (written from the property statement): `SpecOK`, `RunOK` — a reader is a row counter.
+
+Not modelled (tied by L1 only): byte offsets and the in-buffer Discard (all three ways of moving
+the stream are `pos := t`), data pages that do not start on a row boundary (the writer of this
+library never produces them), pages with zero rows, negative row indexes, encryption ordinals,
+reference counts of the cached page. -/
+
+structure Chunk where
+  rows : List Nat    -- row count of every data page, in file order
+  dict : Bool        -- f.dictOffset > 0
+deriving Repr, DecidableEq
 
 structure St where
+  hasIndex : Bool             -- f.chunk.offsetIndex.Load() != nil
   index : Nat                 -- f.index: believed index of the next page in the stream
-  pos   : Nat                 -- actual stream position, in pages
+  pos   : Nat                 -- actual stream position, in data pages
   skip  : Nat                 -- f.skip
-  last  : Option (Nat × Nat)  -- (f.lastPageIndex, page actually cached in f.lastPage)
+  last  : Option (Nat × Nat)  -- (f.lastPageIndex, page actually held by f.lastPage)
   serve : Bool                -- f.serveLastPage
 deriving Repr, DecidableEq
 
+inductive Op where
+  | seek (k : Nat)
+  | readPage
+  | loadIndex                 -- FileColumnChunk.OffsetIndex() on a file opened with SkipPageIndex
+deriving Repr, DecidableEq
+
+inductive Out where
+  | ok
+  | err
+  | eof
+  | page (p start len : Nat)  -- rows start..start+len-1, cut from data page p
+deriving Repr, DecidableEq
+
+/-- pages[i].FirstRowIndex -/
 def firstRow (rows : List Nat) (i : Nat) : Nat := (rows.take i).sum
 
-/-- sort.Search(len, firstRow(i) > k) - 1, as a linear scan -/
+/-- `sort.Search(len(pages), pages[i].FirstRowIndex > k) - 1` as a linear scan (file.go:1582-1584) -/
 def findPage (rows : List Nat) (k : Nat) : Nat → Nat → Nat
   | 0, acc => acc
-  | fuel + 1, acc => if acc + 1 < rows.length ∧ firstRow rows (acc + 1) ≤ k then findPage rows k fuel (acc + 1) else acc
+  | fuel + 1, acc =>
+    if acc + 1 < rows.length ∧ firstRow rows (acc + 1) ≤ k then findPage rows k fuel (acc + 1) else acc
 
 def target (rows : List Nat) (k : Nat) : Nat := findPage rows k rows.length 0
 
-inductive Out where
-  | eof
-  | rows (start len : Nat)
-deriving Repr, DecidableEq
+/-- file.go:1117-1136 `FilePages.init` -/
+def init (hasIndex : Bool) : St :=
+  { hasIndex := hasIndex, index := 0, pos := 0, skip := 0, last := none, serve := false }
 
-/-- the code as it stands (F11): the cached-page shortcut returns before touching the stream -/
-def seekBuggy (rows : List Nat) (s : St) (k : Nat) : St :=
-  let t := target rows k
-  let s := { s with skip := k - firstRow rows t }
-  match s.last with
-  | some (li, _) =>
-    if t = li then { s with serve := true }
-    else if s.index = t then s else { s with index := t, pos := t }
-  | none => if s.index = t then s else { s with index := t, pos := t }
+/-- MIRROR of `FilePages.SeekToRow` as it stands (file.go:1550-1636).
+    1555-1569 no offset index: rewind to dataOffset, `skip = rowIndex`, `index = 0|1`;
+    1572-1581 empty page list; 1582-1589 target and skip; 1592-1595 cached-page shortcut (returns
+    before touching the stream and never clears the flag); 1598-1600 believed position equals the
+    target; 1602-1634 move the stream (Discard / Seek+Reset, all `pos := t` here). -/
+def seekAsis (c : Chunk) (s : St) (k : Nat) : St × Out :=
+  if s.hasIndex = false then
+    ({ s with pos := 0, skip := k, index := if c.dict then 1 else 0 }, .ok)
+  else if c.rows.isEmpty then
+    if k = 0 then ({ s with skip := 0 }, .ok) else (s, .err)
+  else
+    let t := target c.rows k
+    let s := { s with skip := k - firstRow c.rows t }
+    match s.last with
+    | some (li, _) =>
+      if t = li then ({ s with serve := true }, .ok)
+      else if s.index = t then (s, .ok) else ({ s with index := t, pos := t }, .ok)
+    | none => if s.index = t then (s, .ok) else ({ s with index := t, pos := t }, .ok)
 
-/-- repaired seek: clear the flag; when serving the cached page, park the stream on the next page -/
-def seekFixed (rows : List Nat) (s : St) (k : Nat) : St :=
-  let t := target rows k
-  let s := { s with skip := k - firstRow rows t, serve := false }
-  match s.last with
-  | some (li, _) =>
-    if t = li then
-      (if s.index = t + 1 then { s with serve := true } else { s with serve := true, index := t + 1, pos := t + 1 })
-    else if s.index = t then s else { s with index := t, pos := t }
-  | none => if s.index = t then s else { s with index := t, pos := t }
+/-- MIRROR of the repaired `SeekToRow` (proposed_fixes/F11.diff): every successful seek clears
+    `serveLastPage`; the cached page is served only when the stream is positioned right behind it
+    (`f.index == target+1`), otherwise the page is read again from the stream; the no-index path
+    numbers data pages from 0 like the index path does. -/
+def seekFixed (c : Chunk) (s : St) (k : Nat) : St × Out :=
+  if s.hasIndex = false then
+    ({ s with pos := 0, skip := k, index := 0, serve := false }, .ok)
+  else if c.rows.isEmpty then
+    if k = 0 then ({ s with skip := 0 }, .ok) else (s, .err)
+  else
+    let t := target c.rows k
+    let s := { s with skip := k - firstRow c.rows t, serve := false }
+    match s.last with
+    | some (li, _) =>
+      if t = li ∧ s.index = t + 1 then ({ s with serve := true }, .ok)
+      else if s.index = t then (s, .ok) else ({ s with index := t, pos := t }, .ok)
+    | none => if s.index = t then (s, .ok) else ({ s with index := t, pos := t }, .ok)
 
-/-- read loop over the stream (after the cached-page preamble) -/
+/-- MIRROR of the `for` loop of `FilePages.ReadPage` (file.go:1193-1320): decode the page under the
+    stream (EOF when there is none), cache it with the believed index (1269-1278), then return it
+    (1279-1304), skip it entirely (1310-1311, 1319) or return its tail (1313-1316). -/
 def readLoop (rows : List Nat) : Nat → St → St × Out
   | 0, s => (s, .eof)
   | fuel + 1, s =>
@@ -53,41 +106,79 @@ def readLoop (rows : List Nat) : Nat → St → St × Out
     | none => (s, .eof)
     | some nr =>
       let s' := { s with last := some (s.index, s.pos), index := s.index + 1, pos := s.pos + 1 }
-      if s.skip = 0 then (s', .rows (firstRow rows s.pos) nr)
+      if s.skip = 0 then (s', .page s.pos (firstRow rows s.pos) nr)
       else if nr ≤ s.skip then readLoop rows fuel { s' with skip := s.skip - nr }
-      else ({ s' with skip := 0 }, .rows (firstRow rows s.pos + s.skip) (nr - s.skip))
+      else ({ s' with skip := 0 }, .page s.pos (firstRow rows s.pos + s.skip) (nr - s.skip))
 
+/-- MIRROR of `FilePages.ReadPage` (file.go:1169-1321); 1179-1191 is the cached-page preamble. -/
 def readPage (rows : List Nat) (s : St) : St × Out :=
   match s.serve, s.last with
   | true, some (li, lp) =>
     let s := { s with serve := false, index := li + 1 }
     let nr := rows.getD lp 0
-    if s.skip < nr then ({ s with skip := 0 }, .rows (firstRow rows lp + s.skip) (nr - s.skip))
+    if s.skip < nr then ({ s with skip := 0 }, .page lp (firstRow rows lp + s.skip) (nr - s.skip))
     else readLoop rows (rows.length + 1) { s with skip := s.skip - nr }
   | _, _ => readLoop rows (rows.length + 1) s
 
-def init : St := { index := 0, pos := 0, skip := 0, last := none, serve := false }
+def stepAsis (c : Chunk) (s : St) : Op → St × Out
+  | .seek k => seekAsis c s k
+  | .readPage => readPage c.rows s
+  | .loadIndex => ({ s with hasIndex := true }, .ok)
 
--- F11 on the model of the unchanged code: pages of 10 rows
-def pages10 : List Nat := List.replicate 10 10
-def afterBuggy : St × Out :=
-  let s := seekBuggy pages10 init 20
-  let (s, _) := readPage pages10 s
-  let s := seekBuggy pages10 s 70
-  let s := seekBuggy pages10 s 25
-  let (s, _) := readPage pages10 s       -- rows 25..29
-  readPage pages10 s                      -- should be rows 30..39
-example : afterBuggy.2 = .rows 70 10 := by decide
-def afterFixed : St × Out :=
-  let s := seekFixed pages10 init 20
-  let (s, _) := readPage pages10 s
-  let s := seekFixed pages10 s 70
-  let s := seekFixed pages10 s 25
-  let (s, _) := readPage pages10 s
-  readPage pages10 s
-example : afterFixed.2 = .rows 30 10 := by decide
+def stepFixed (c : Chunk) (s : St) : Op → St × Out
+  | .seek k => seekFixed c s k
+  | .readPage => readPage c.rows s
+  | .loadIndex => ({ s with hasIndex := true }, .ok)
 
-/-! ### refinement proof for the repaired seek -/
+/-- run a history, collecting the state and output after every op -/
+def run (step : St → Op → St × Out) : St → List Op → List (St × Out)
+  | _, [] => []
+  | s, op :: ops => let r := step s op; r :: run step r.1 ops
+
+def outs (step : St → Op → St × Out) (s : St) (ops : List Op) : List Out :=
+  (run step s ops).map (·.2)
+
+/-! ### SPEC: a sequential reader is a row counter -/
+
+def total (c : Chunk) : Nat := c.rows.sum
+
+/-- One step of the reference reader standing before row `n`: a seek moves it to `k` (it may be
+    refused only when `k` is beyond the last row, and then nothing changes); a read delivers the
+    rest of the page that contains row `n` and EOF exactly when no row is left. -/
+def SpecOK (c : Chunk) (n : Nat) (op : Op) (n' : Nat) (out : Out) : Prop :=
+  match op with
+  | .seek k => (out = .ok ∧ n' = k) ∨ (out = .err ∧ n' = n ∧ total c < k)
+  | .loadIndex => out = .ok ∧ n' = n
+  | .readPage =>
+    if total c ≤ n then out = .eof ∧ n' = n
+    else out = .page (target c.rows n) n (firstRow c.rows (target c.rows n + 1) - n) ∧
+         n' = firstRow c.rows (target c.rows n + 1) ∧ n < n' ∧ n' ≤ total c
+
+inductive RunOK (c : Chunk) : Nat → List Op → List Out → Prop where
+  | nil (n) : RunOK c n [] []
+  | cons {n op n' out ops os} : SpecOK c n op n' out → RunOK c n' ops os → RunOK c n (op :: ops) (out :: os)
+
+/-! ### F11 on the mirror of the unchanged code: ten pages of ten rows -/
+
+def c10 : Chunk := { rows := List.replicate 10 10, dict := false }
+
+/-- history A: the cached-page shortcut leaves the stream where the previous seek put it -/
+def histA : List Op := [.seek 20, .readPage, .seek 70, .seek 25, .readPage, .readPage]
+/-- history B: a stale `serveLastPage` survives the next seek -/
+def histB : List Op := [.seek 20, .readPage, .seek 25, .seek 72, .readPage]
+/-- history C: page numbers of the no-index path count the dictionary page; the offset index is
+    loaded lazily afterwards (file opened with SkipPageIndex, then `ColumnChunk.OffsetIndex()`) -/
+def c10d : Chunk := { rows := List.replicate 10 10, dict := true }
+def histC : List Op := [.seek 5, .readPage, .loadIndex, .seek 12, .readPage]
+
+example : outs (stepAsis c10) (init true) histA = [.ok, .page 2 20 10, .ok, .ok, .page 2 25 5, .page 7 70 10] := by decide
+example : outs (stepFixed c10) (init true) histA = [.ok, .page 2 20 10, .ok, .ok, .page 2 25 5, .page 3 30 10] := by decide
+example : outs (stepAsis c10) (init true) histB = [.ok, .page 2 20 10, .ok, .ok, .page 2 22 8] := by decide
+example : outs (stepFixed c10) (init true) histB = [.ok, .page 2 20 10, .ok, .ok, .page 7 72 8] := by decide
+example : outs (stepAsis c10d) (init false) histC = [.ok, .page 0 5 5, .ok, .ok, .page 0 2 8] := by decide
+example : outs (stepFixed c10d) (init false) histC = [.ok, .page 0 5 5, .ok, .ok, .page 1 12 8] := by decide
+
+/-! ### arithmetic of `firstRow` and `target` -/
 
 theorem firstRow_succ : ∀ (rows : List Nat) (i : Nat) (nr : Nat), rows[i]? = some nr →
     firstRow rows (i + 1) = firstRow rows i + nr
@@ -103,7 +194,7 @@ theorem firstRow_succ : ∀ (rows : List Nat) (i : Nat) (nr : Nat), rows[i]? = s
 theorem firstRow_all (rows : List Nat) : ∀ i, rows.length ≤ i → firstRow rows i = rows.sum := by
   intro i hi; simp [firstRow, List.take_of_length_le hi]
 
-theorem firstRow_mono (rows : List Nat) : ∀ i, firstRow rows i ≤ rows.sum := by
+theorem firstRow_le_sum (rows : List Nat) : ∀ i, firstRow rows i ≤ rows.sum := by
   intro i
   induction rows generalizing i with
   | nil => simp [firstRow]
@@ -112,16 +203,25 @@ theorem firstRow_mono (rows : List Nat) : ∀ i, firstRow rows i ≤ rows.sum :=
     | zero => simp [firstRow]
     | succ i => have := ih i; simp only [firstRow, List.take_succ_cons, List.sum_cons] at this ⊢; omega
 
-def SInv (rows : List Nat) (s : St) : Prop :=
-  s.pos = s.index ∧ s.index ≤ rows.length ∧
-  (∀ li lp, s.last = some (li, lp) → li = lp ∧ lp < rows.length) ∧
-  (s.serve = true → ∃ li lp, s.last = some (li, lp) ∧ s.index = li + 1)
+theorem firstRow_zero (rows : List Nat) : firstRow rows 0 = 0 := by simp [firstRow]
 
-/-- abstraction: the next row this reader will deliver -/
-def next (rows : List Nat) (s : St) : Nat :=
-  match s.serve, s.last with
-  | true, some (li, _) => firstRow rows li + s.skip
-  | _, _ => firstRow rows s.index + s.skip
+theorem firstRow_step_le (rows : List Nat) (i : Nat) : firstRow rows i ≤ firstRow rows (i + 1) := by
+  rcases Nat.lt_or_ge i rows.length with h | h
+  · have := firstRow_succ rows i rows[i] (by simp [List.getElem?_eq_getElem h]); omega
+  · rw [firstRow_all rows i h, firstRow_all rows (i + 1) (by omega)]; exact Nat.le_refl _
+
+theorem firstRow_mono (rows : List Nat) {i j : Nat} (h : i ≤ j) : firstRow rows i ≤ firstRow rows j := by
+  induction j with
+  | zero => have : i = 0 := by omega
+            subst this; exact Nat.le_refl _
+  | succ j ih =>
+    rcases Nat.lt_or_ge i (j + 1) with h1 | h1
+    · exact Nat.le_trans (ih (by omega)) (firstRow_step_le rows j)
+    · have : i = j + 1 := by omega
+      subst this; exact Nat.le_refl _
+
+theorem getElem?_of_lt (rows : List Nat) {i : Nat} (h : i < rows.length) : rows[i]? = some (rows.getD i 0) := by
+  simp [List.getD, List.getElem?_eq_getElem h]
 
 theorem findPage_spec (rows : List Nat) (k : Nat) : ∀ fuel acc, firstRow rows acc ≤ k →
     (acc < rows.length ∨ acc = 0) →
@@ -135,60 +235,77 @@ theorem findPage_spec (rows : List Nat) (k : Nat) : ∀ fuel acc, firstRow rows 
       exact findPage_spec rows k fuel (acc + 1) hc.2 (Or.inl hc.1)
     · exact ⟨h, hb⟩
 
+/-- the scan stops only at the last page or in front of a page that starts after `k` -/
+theorem findPage_max (rows : List Nat) (k : Nat) : ∀ fuel acc, rows.length ≤ acc + 1 + fuel →
+    findPage rows k fuel acc + 1 < rows.length → k < firstRow rows (findPage rows k fuel acc + 1)
+  | 0, acc, hf, h => by simp only [findPage] at h ⊢; omega
+  | fuel + 1, acc, hf, h => by
+    simp only [findPage] at h ⊢
+    split
+    · rename_i hc
+      rw [if_pos hc] at h
+      exact findPage_max rows k fuel (acc + 1) (by omega) h
+    · rename_i hc
+      rw [if_neg hc] at h
+      rcases Nat.lt_or_ge k (firstRow rows (acc + 1)) with h1 | h1
+      · exact h1
+      · exact absurd ⟨h, h1⟩ hc
+
 theorem target_spec (rows : List Nat) (k : Nat) :
     firstRow rows (target rows k) ≤ k ∧ (target rows k < rows.length ∨ target rows k = 0) :=
   findPage_spec rows k rows.length 0 (by simp [firstRow]) (Or.inr rfl)
 
-theorem seekFixed_spec (rows : List Nat) (s : St) (k : Nat) (h : SInv rows s) :
-    SInv rows (seekFixed rows s k) ∧ next rows (seekFixed rows s k) = k := by
-  obtain ⟨hpos, hidx, hlast, hserve⟩ := h
-  have ht := target_spec rows k
-  generalize hT : target rows k = t at ht
-  have htn : t ≤ rows.length := by omega
-  unfold seekFixed
-  simp only [hT]
-  cases hl : s.last with
-  | none =>
-    simp only []
-    split
-    · rename_i he
-      refine ⟨⟨hpos, hidx, by simp [hl], by simp⟩, ?_⟩
-      simp [next, he]; omega
-    · refine ⟨⟨rfl, htn, by simp [hl], by simp⟩, ?_⟩
-      simp [next]; omega
-  | some p =>
-    obtain ⟨li, lp⟩ := p
-    have hll := hlast li lp hl
-    simp only []
-    split
-    · rename_i he
-      subst he
-      split
-      · rename_i hi
-        refine ⟨⟨hpos, hidx, by simpa [hl] using hll, fun _ => ⟨t, lp, by simp [hl], hi⟩⟩, ?_⟩
-        simp [next, hl]; omega
-      · refine ⟨⟨rfl, (by show t + 1 ≤ rows.length; omega), by simpa [hl] using hll, fun _ => ⟨t, lp, by simp [hl], rfl⟩⟩, ?_⟩
-        simp [next, hl]; omega
-    · split
-      · rename_i he
-        refine ⟨⟨hpos, hidx, by simpa [hl] using hll, by simp⟩, ?_⟩
-        simp [next, he]; omega
-      · refine ⟨⟨rfl, htn, by simpa [hl] using hll, by simp⟩, ?_⟩
-        simp [next]; omega
+/-- row `k` lies inside page `target k` whenever it exists -/
+theorem target_upper (rows : List Nat) (k : Nat) (hk : k < rows.sum) :
+    k < firstRow rows (target rows k + 1) := by
+  rcases Nat.lt_or_ge (target rows k + 1) rows.length with h | h
+  · exact findPage_max rows k rows.length 0 (by omega) h
+  · rw [firstRow_all rows _ h]; exact hk
 
-def Spec (rows : List Nat) (start : Nat) (r : St × Out) : Prop :=
-  SInv rows r.1 ∧
+/-- the page containing a row is unique (pages are non-empty) -/
+theorem target_unique (rows : List Nat) (k p : Nat) (hk : k < rows.sum)
+    (h1 : firstRow rows p ≤ k) (h2 : k < firstRow rows (p + 1)) : target rows k = p := by
+  have a1 := (target_spec rows k).1
+  have a2 := target_upper rows k hk
+  rcases Nat.lt_trichotomy (target rows k) p with h | h | h
+  · have := firstRow_mono rows (show target rows k + 1 ≤ p by omega); omega
+  · exact h
+  · have := firstRow_mono rows (show p + 1 ≤ target rows k by omega); omega
+
+/-! ### invariants and the abstraction -/
+
+/-- what `ReadPage` relies on: only the actual stream position and the actually cached page -/
+def RInv (rows : List Nat) (s : St) : Prop :=
+  s.pos ≤ rows.length ∧
+  (∀ li lp, s.last = some (li, lp) → lp < rows.length) ∧
+  (s.serve = true → ∃ li lp, s.last = some (li, lp) ∧ s.pos = lp + 1)
+
+/-- believed and actual page numbers agree -/
+def Agree (s : St) : Prop :=
+  s.index = s.pos ∧ ∀ li lp, s.last = some (li, lp) → li = lp
+
+/-- abstraction: the next row this reader will deliver -/
+def next (rows : List Nat) (s : St) : Nat :=
+  match s.serve, s.last with
+  | true, some (_, lp) => firstRow rows lp + s.skip
+  | _, _ => firstRow rows s.pos + s.skip
+
+/-- outcome of a read that starts before row `start` -/
+def ReadOK (rows : List Nat) (start : Nat) (r : St × Out) : Prop :=
+  RInv rows r.1 ∧ r.1.serve = false ∧
   match r.2 with
-  | .rows st len => st = start ∧ 0 < len ∧ next rows r.1 = st + len ∧ st + len ≤ rows.sum
-  | .eof => rows.sum ≤ start
+  | .page p st len => st = start ∧ 0 < len ∧ next rows r.1 = st + len ∧ st + len ≤ rows.sum ∧
+      firstRow rows p ≤ st ∧ st + len = firstRow rows (p + 1)
+  | .eof => rows.sum ≤ start ∧ next rows r.1 = start
+  | _ => False
 
 theorem readLoop_spec (rows : List Nat) (hpos : ∀ r ∈ rows, 0 < r) :
-    ∀ (fuel : Nat) (s : St), s.pos = s.index → s.index ≤ rows.length → s.serve = false →
-      (∀ li lp, s.last = some (li, lp) → li = lp ∧ lp < rows.length) →
+    ∀ (fuel : Nat) (s : St), s.pos ≤ rows.length → s.serve = false →
+      (∀ li lp, s.last = some (li, lp) → lp < rows.length) →
       rows.length - s.pos < fuel →
-      Spec rows (firstRow rows s.pos + s.skip) (readLoop rows fuel s)
-  | 0, s, _, _, _, _, hf => by omega
-  | fuel + 1, s, hp, hi, hs, hl, hf => by
+      ReadOK rows (firstRow rows s.pos + s.skip) (readLoop rows fuel s)
+  | 0, s, _, _, _, hf => by omega
+  | fuel + 1, s, hi, hs, hl, hf => by
     simp only [readLoop]
     cases hr : rows[s.pos]? with
     | none =>
@@ -196,9 +313,10 @@ theorem readLoop_spec (rows : List Nat) (hpos : ∀ r ∈ rows, 0 < r) :
         rcases Nat.lt_or_ge s.pos rows.length with h | h
         · simp [List.getElem?_eq_getElem h] at hr
         · exact h
-      refine ⟨⟨hp, hi, hl, by simp [hs]⟩, ?_⟩
-      simp only []
-      rw [firstRow_all rows s.pos hge]; omega
+      refine ⟨⟨hi, hl, by simp [hs]⟩, hs, ?_⟩
+      simp only [next, hs]
+      rw [firstRow_all rows s.pos hge]
+      exact ⟨by omega, by cases s.last <;> trivial⟩
     | some nr =>
       have hlt : s.pos < rows.length := by
         rcases Nat.lt_or_ge s.pos rows.length with h | h
@@ -206,86 +324,462 @@ theorem readLoop_spec (rows : List Nat) (hpos : ∀ r ∈ rows, 0 < r) :
         · simp [List.getElem?_eq_none h] at hr
       have hnr : 0 < nr := hpos nr (List.mem_of_getElem? hr)
       have hfs := firstRow_succ rows s.pos nr hr
-      have hmono := firstRow_mono rows (s.pos + 1)
+      have hle := firstRow_le_sum rows (s.pos + 1)
       simp only []
       split
       · rename_i h0
-        refine ⟨⟨by simp [hp], by simp; omega, ?_, by simp [hs]⟩, ?_⟩
+        refine ⟨⟨by simp; omega, ?_, by simp [hs]⟩, by simp [hs], ?_⟩
         · intro li lp h; simp at h; omega
         · simp only [next, hs]
           simp [h0]
-          rw [← hp]; omega
+          omega
       · split
-        · rename_i h0 hle
+        · rename_i h0 hle'
           have := readLoop_spec rows hpos fuel
             { s with last := some (s.index, s.pos), index := s.index + 1, pos := s.pos + 1, skip := s.skip - nr }
-            (by simp [hp]) (by simp; omega) (by simp [hs]) (by intro li lp h; simp at h; omega) (by simp; omega)
+            (by simp; omega) (by simp [hs]) (by intro li lp h; simp at h; omega) (by simp; omega)
           have he : firstRow rows (s.pos + 1) + (s.skip - nr) = firstRow rows s.pos + s.skip := by omega
           simpa [he] using this
         · rename_i h0 hgt
-          refine ⟨⟨by simp [hp], by simp; omega, ?_, by simp [hs]⟩, ?_⟩
+          refine ⟨⟨by simp; omega, ?_, by simp [hs]⟩, by simp [hs], ?_⟩
           · intro li lp h; simp at h; omega
           · simp only [next, hs]
             simp
-            rw [← hp]; omega
+            omega
 
-theorem readPage_spec (rows : List Nat) (hpos : ∀ r ∈ rows, 0 < r) (s : St) (h : SInv rows s) :
-    Spec rows (next rows s) (readPage rows s) := by
-  obtain ⟨hp, hi, hl, hsv⟩ := h
+theorem readPage_spec (rows : List Nat) (hpos : ∀ r ∈ rows, 0 < r) (s : St) (h : RInv rows s) :
+    ReadOK rows (next rows s) (readPage rows s) := by
+  obtain ⟨hi, hl, hsv⟩ := h
   unfold readPage
   cases hs : s.serve with
   | false =>
-    have := readLoop_spec rows hpos (rows.length + 1) s hp hi hs hl (by omega)
-    have hn : next rows s = firstRow rows s.pos + s.skip := by simp [next, hs, hp]
+    have := readLoop_spec rows hpos (rows.length + 1) s hi hs hl (by omega)
+    have hn : next rows s = firstRow rows s.pos + s.skip := by simp [next, hs]
     cases hlast : s.last <;> simpa [hn] using this
   | true =>
     obtain ⟨li, lp, hlast, hidx⟩ := hsv hs
-    obtain ⟨hEq, hlp⟩ := hl li lp hlast
-    subst hEq
-    have hn : next rows s = firstRow rows li + s.skip := by simp [next, hs, hlast]
+    have hlp := hl li lp hlast
+    have hn : next rows s = firstRow rows lp + s.skip := by simp [next, hs, hlast]
     rw [hn]
     simp only [hlast]
-    have hget : rows[li]? = some (rows.getD li 0) := by
-      simp [List.getD, List.getElem?_eq_getElem hlp]
-    generalize rows.getD li 0 = nr at hget
+    have hget := getElem?_of_lt rows hlp
+    generalize rows.getD lp 0 = nr at hget
     have hnr : 0 < nr := hpos _ (List.mem_of_getElem? hget)
-    have hfs := firstRow_succ rows li _ hget
-    have hmono := firstRow_mono rows (li + 1)
+    have hfs := firstRow_succ rows lp _ hget
+    have hle := firstRow_le_sum rows (lp + 1)
     split
     · rename_i hlt
-      refine ⟨⟨by simp; omega, by simp; omega, ?_, by simp⟩, ?_⟩
+      refine ⟨⟨hi, ?_, by simp⟩, by simp, ?_⟩
       · intro a b hab
         simp at hab
-        omega
+        obtain ⟨_, rfl⟩ := hab
+        exact hlp
       · simp only [next]
         simp
+        rw [hidx]
         omega
     · rename_i hge
       have := readLoop_spec rows hpos (rows.length + 1)
         { s with serve := false, index := li + 1, skip := s.skip - nr }
-        (by simp; omega) (by simp; omega) (by simp)
+        hi (by simp)
         (by
           intro a b hab
-          have : s.last = some (a, b) := by simpa using hab
-          rw [hlast] at this
-          simp at this
-          omega)
+          have hab' : s.last = some (a, b) := hab
+          exact hl a b hab')
         (by simp; omega)
-      have he : firstRow rows s.pos + (s.skip - nr) = firstRow rows li + s.skip := by
-        rw [hp, hidx]; omega
+      have he : firstRow rows s.pos + (s.skip - nr) = firstRow rows lp + s.skip := by
+        rw [hidx]; omega
       simpa [he, hlast] using this
 
-/-- C08 core (page level, offset-index path, repaired seek): after `seek k`, successive reads deliver
-    consecutive row ranges starting exactly at `k`; EOF only at the end. -/
-theorem seek_then_read (rows : List Nat) (hpos : ∀ r ∈ rows, 0 < r) (s : St) (h : SInv rows s) (k : Nat) :
-    Spec rows k (readPage rows (seekFixed rows s k)) := by
-  have hs := seekFixed_spec rows s k h
-  have := readPage_spec rows hpos _ hs.1
-  rwa [hs.2] at this
+/-- `ReadPage` keeps believed and actual page numbers in step -/
+theorem readLoop_agree (rows : List Nat) : ∀ (fuel : Nat) (s : St), Agree s →
+    Agree (readLoop rows fuel s).1
+  | 0, s, h => h
+  | fuel + 1, s, h => by
+    simp only [readLoop]
+    cases hr : rows[s.pos]? with
+    | none => exact h
+    | some nr =>
+      obtain ⟨h1, h2⟩ := h
+      simp only []
+      split
+      · refine ⟨by simp; omega, ?_⟩
+        intro li lp hh; simp at hh; omega
+      · split
+        · apply readLoop_agree rows fuel
+          refine ⟨by simp; omega, ?_⟩
+          intro li lp hh; simp at hh; omega
+        · refine ⟨by simp; omega, ?_⟩
+          intro li lp hh; simp at hh; omega
 
-theorem init_inv (rows : List Nat) : SInv rows init := by
-  simp [SInv, init]
+theorem readPage_agree (rows : List Nat) (s : St) (hr : RInv rows s) (h : Agree s) :
+    Agree (readPage rows s).1 := by
+  obtain ⟨_, _, hsv⟩ := hr
+  obtain ⟨h1, h2⟩ := h
+  unfold readPage
+  cases hs : s.serve with
+  | false =>
+    have := readLoop_agree rows (rows.length + 1) s ⟨h1, h2⟩
+    cases hlast : s.last <;> simpa using this
+  | true =>
+    obtain ⟨li, lp, hlast, hidx⟩ := hsv hs
+    have hli := h2 li lp hlast
+    simp only [hlast]
+    split
+    · refine ⟨by simp; omega, ?_⟩
+      intro a b hab
+      simp at hab
+      obtain ⟨h3, h4⟩ := hab
+      omega
+    · apply readLoop_agree
+      refine ⟨by simp; omega, ?_⟩
+      intro a b hab
+      simp at hab
+      obtain ⟨h3, h4⟩ := hab
+      omega
 
-#print axioms seek_then_read
+theorem readPage_hasIndex (rows : List Nat) (s : St) : (readPage rows s).1.hasIndex = s.hasIndex := by
+  have loop : ∀ fuel (s : St), (readLoop rows fuel s).1.hasIndex = s.hasIndex := by
+    intro fuel
+    induction fuel with
+    | zero => intro s; rfl
+    | succ fuel ih =>
+      intro s
+      simp only [readLoop]
+      cases rows[s.pos]? with
+      | none => rfl
+      | some nr =>
+        simp only []
+        split
+        · rfl
+        · split
+          · rw [ih]
+          · rfl
+  unfold readPage
+  split
+  · simp only []
+    split
+    · rfl
+    · rw [loop]
+  · rw [loop]
+
+/-- a read turns the concrete outcome into a step of the reference reader -/
+theorem readOK_spec (c : Chunk) (n : Nat) (r : St × Out) (h : ReadOK c.rows n r) :
+    SpecOK c n .readPage (next c.rows r.1) r.2 := by
+  obtain ⟨_, _, h3⟩ := h
+  have htot : total c = c.rows.sum := rfl
+  unfold SpecOK
+  cases ho : r.2 with
+  | ok => simp [ho] at h3
+  | err => simp [ho] at h3
+  | eof =>
+    simp only [ho] at h3
+    simp only []
+    split
+    · exact ⟨trivial, h3.2⟩
+    · omega
+  | page p st len =>
+    simp only [ho] at h3
+    obtain ⟨e1, e2, e3, e4, e5, e6⟩ := h3
+    subst e1
+    have ht : target c.rows st = p := target_unique c.rows st p (by omega) e5 (by omega)
+    simp only []
+    split
+    · omega
+    · rw [ht, e3, ← e6]
+      refine ⟨?_, rfl, by omega, by omega⟩
+      congr 1
+      omega
+
+/-! ### the repaired seek -/
+
+/-- invariant of the repaired reader -/
+def SInv (rows : List Nat) (s : St) : Prop := RInv rows s ∧ Agree s
+
+theorem seekFixed_spec (c : Chunk) (s : St) (k : Nat) (h : SInv c.rows s) :
+    SInv c.rows (seekFixed c s k).1 ∧
+    (((seekFixed c s k).2 = .ok ∧ next c.rows (seekFixed c s k).1 = k) ∨
+     ((seekFixed c s k).2 = .err ∧ (seekFixed c s k).1 = s ∧ total c < k)) := by
+  obtain ⟨⟨hidx, hlast, hserve⟩, ⟨hpos, hag⟩⟩ := h
+  have hpos' : s.index = s.pos := hpos
+  unfold seekFixed
+  split
+  · -- no offset index
+    refine ⟨⟨⟨by simp, hlast, by simp⟩, ⟨by simp, hag⟩⟩, Or.inl ⟨rfl, ?_⟩⟩
+    simp [next, firstRow_zero]
+  · split
+    · rename_i he
+      have hnil : c.rows = [] := by simpa using he
+      split
+      · rename_i hk
+        refine ⟨⟨⟨hidx, hlast, hserve⟩, ⟨hpos, hag⟩⟩, Or.inl ⟨rfl, ?_⟩⟩
+        have hnone : s.last = none := by
+          cases hl : s.last with
+          | none => rfl
+          | some p => have := hlast p.1 p.2 (by simp [hl]); simp [hnil] at this
+        simp [next, hnone, hnil, firstRow, hk]
+      · rename_i hk
+        refine ⟨⟨⟨hidx, hlast, hserve⟩, ⟨hpos, hag⟩⟩, Or.inr ⟨rfl, rfl, ?_⟩⟩
+        simp [total, hnil]; omega
+    · have ht := target_spec c.rows k
+      generalize hT : target c.rows k = t at ht
+      have htn : t ≤ c.rows.length := by omega
+      simp only []
+      cases hl : s.last with
+      | none =>
+        simp only []
+        split
+        · rename_i he
+          refine ⟨⟨⟨hidx, by simp [hl], by simp⟩, ⟨hpos, by simp [hl]⟩⟩, Or.inl ⟨rfl, ?_⟩⟩
+          simp [next, ← hpos', he]; omega
+        · refine ⟨⟨⟨htn, by simp [hl], by simp⟩, ⟨rfl, by simp [hl]⟩⟩, Or.inl ⟨rfl, ?_⟩⟩
+          simp [next]; omega
+      | some p =>
+        obtain ⟨li, lp⟩ := p
+        have hll := hlast li lp hl
+        have hli : li = lp := hag li lp hl
+        subst hli
+        simp only []
+        split
+        · rename_i he
+          obtain ⟨he1, he2⟩ := he
+          subst he1
+          refine ⟨⟨⟨hidx, by simpa [hl] using hlast, fun _ => ⟨t, t, by simp [hl], by show s.pos = t + 1; omega⟩⟩,
+            ⟨hpos, by simpa [hl] using hag⟩⟩, Or.inl ⟨rfl, ?_⟩⟩
+          simp [next, hl]; omega
+        · split
+          · rename_i he
+            refine ⟨⟨⟨hidx, by simpa [hl] using hlast, by simp⟩, ⟨hpos, by simpa [hl] using hag⟩⟩, Or.inl ⟨rfl, ?_⟩⟩
+            simp [next, ← hpos', he]; omega
+          · refine ⟨⟨⟨htn, by simpa [hl] using hlast, by simp⟩, ⟨rfl, by simpa [hl] using hag⟩⟩, Or.inl ⟨rfl, ?_⟩⟩
+            simp [next]; omega
+
+theorem init_inv (rows : List Nat) (hi : Bool) : SInv rows (init hi) := by
+  simp [SInv, RInv, Agree, init]
+
+theorem stepFixed_inv (c : Chunk) (hpos : ∀ r ∈ c.rows, 0 < r) (s : St) (op : Op) (h : SInv c.rows s) :
+    SInv c.rows (stepFixed c s op).1 := by
+  cases op with
+  | seek k => exact (seekFixed_spec c s k h).1
+  | readPage => exact ⟨(readPage_spec c.rows hpos s h.1).1, readPage_agree c.rows s h.1 h.2⟩
+  | loadIndex => exact h
+
+/-- every step of the repaired reader is a step of the reference reader -/
+theorem stepFixed_spec (c : Chunk) (hpos : ∀ r ∈ c.rows, 0 < r) (s : St) (op : Op) (h : SInv c.rows s) :
+    SpecOK c (next c.rows s) op (next c.rows (stepFixed c s op).1) (stepFixed c s op).2 := by
+  cases op with
+  | seek k =>
+    rcases (seekFixed_spec c s k h).2 with ⟨h1, h2⟩ | ⟨h1, h2, h3⟩
+    · exact Or.inl ⟨h1, h2⟩
+    · refine Or.inr ⟨h1, ?_, h3⟩
+      show next c.rows (seekFixed c s k).1 = next c.rows s
+      rw [h2]
+  | readPage => exact readOK_spec c _ _ (readPage_spec c.rows hpos s h.1)
+  | loadIndex => exact ⟨rfl, rfl⟩
+
+/-! ### the code as it stands, away from the cached-page shortcut -/
+
+/-- the op does not take a path on which the unchanged code goes wrong: a seek (with offset
+    index) does not target the page recorded as cached, and the offset index is not loaded lazily
+    after the no-index path numbered the pages of a chunk with a dictionary -/
+def safeOp (c : Chunk) (s : St) : Op → Bool
+  | .seek k => !s.hasIndex || (match s.last with
+      | some (li, _) => target c.rows k != li
+      | none => true)
+  | .readPage => true
+  | .loadIndex => !c.dict || s.hasIndex
+
+def SafeOp (c : Chunk) (s : St) (op : Op) : Prop := safeOp c s op = true
+
+theorem safeOp_seek (c : Chunk) (s : St) (k : Nat) (h : SafeOp c s (.seek k)) (hi : s.hasIndex = true) :
+    ∀ li lp, s.last = some (li, lp) → target c.rows k ≠ li := by
+  intro li lp hl
+  simp [SafeOp, safeOp, hi, hl] at h
+  exact h
+
+theorem safeOp_load (c : Chunk) (s : St) (h : SafeOp c s .loadIndex) : c.dict = false ∨ s.hasIndex = true := by
+  simp [SafeOp, safeOp] at h
+  exact h
+
+/-- invariant of the unchanged reader along safe histories: the flag is never set, and page
+    numbers agree whenever they can ever be looked at (there is an offset index, or one may
+    still be loaded because the chunk has no dictionary) -/
+def AInv (c : Chunk) (s : St) : Prop :=
+  RInv c.rows s ∧ s.serve = false ∧ ((s.hasIndex = true ∨ c.dict = false) → Agree s)
+
+theorem seekAsis_spec (c : Chunk) (s : St) (k : Nat) (h : AInv c s) (hs : SafeOp c s (.seek k)) :
+    AInv c (seekAsis c s k).1 ∧
+    (((seekAsis c s k).2 = .ok ∧ next c.rows (seekAsis c s k).1 = k) ∨
+     ((seekAsis c s k).2 = .err ∧ (seekAsis c s k).1 = s ∧ total c < k)) := by
+  obtain ⟨⟨hidx, hlast, hserve⟩, hsv, hagree⟩ := h
+  unfold seekAsis
+  split
+  · rename_i hni
+    refine ⟨⟨⟨by simp, hlast, by simp [hsv]⟩, hsv, ?_⟩, Or.inl ⟨rfl, ?_⟩⟩
+    · intro hp
+      have hdict : c.dict = false := by
+        rcases hp with hp | hp
+        · simp [hni] at hp
+        · exact hp
+      obtain ⟨_, hag⟩ := hagree (Or.inr hdict)
+      exact ⟨by simp [hdict], hag⟩
+    · simp [next, hsv, firstRow_zero]
+  · rename_i hi
+    have hi' : s.hasIndex = true := by simpa using hi
+    obtain ⟨hpos, hag⟩ := hagree (Or.inl hi')
+    split
+    · rename_i he
+      have hnil : c.rows = [] := by simpa using he
+      split
+      · rename_i hk
+        refine ⟨⟨⟨hidx, hlast, hserve⟩, hsv, hagree⟩, Or.inl ⟨rfl, ?_⟩⟩
+        simp [next, hsv, hnil, firstRow, hk]
+      · rename_i hk
+        refine ⟨⟨⟨hidx, hlast, hserve⟩, hsv, hagree⟩, Or.inr ⟨rfl, rfl, ?_⟩⟩
+        simp [total, hnil]; omega
+    · have ht := target_spec c.rows k
+      have hsafe := safeOp_seek c s k hs hi'
+      generalize hT : target c.rows k = t at ht hsafe
+      have htn : t ≤ c.rows.length := by omega
+      simp only []
+      cases hl : s.last with
+      | none =>
+        simp only []
+        split
+        · rename_i he
+          refine ⟨⟨⟨hidx, by simp [hl], by simp [hsv]⟩, hsv, fun _ => ⟨hpos, by simp [hl]⟩⟩, Or.inl ⟨rfl, ?_⟩⟩
+          simp [next, hsv, ← hpos, he]; omega
+        · refine ⟨⟨⟨htn, by simp [hl], by simp [hsv]⟩, hsv, fun _ => ⟨rfl, by simp [hl]⟩⟩, Or.inl ⟨rfl, ?_⟩⟩
+          simp [next, hsv]; omega
+      | some p =>
+        obtain ⟨li, lp⟩ := p
+        have hne := hsafe li lp hl
+        simp only []
+        split
+        · rename_i he; exact absurd he hne
+        · split
+          · rename_i he
+            refine ⟨⟨⟨hidx, by simpa [hl] using hlast, by simp [hsv]⟩, hsv, fun _ => ⟨hpos, by simpa [hl] using hag⟩⟩, Or.inl ⟨rfl, ?_⟩⟩
+            simp [next, hsv, ← hpos, he]; omega
+          · refine ⟨⟨⟨htn, by simpa [hl] using hlast, by simp [hsv]⟩, hsv, fun _ => ⟨rfl, by simpa [hl] using hag⟩⟩, Or.inl ⟨rfl, ?_⟩⟩
+            simp [next, hsv]; omega
+
+theorem init_ainv (c : Chunk) (hi : Bool) : AInv c (init hi) := by
+  simp [AInv, RInv, Agree, init]
+
+theorem stepAsis_inv (c : Chunk) (hpos : ∀ r ∈ c.rows, 0 < r) (s : St) (op : Op) (h : AInv c s)
+    (hs : SafeOp c s op) : AInv c (stepAsis c s op).1 := by
+  cases op with
+  | seek k => exact (seekAsis_spec c s k h hs).1
+  | readPage =>
+    have hr := readPage_spec c.rows hpos s h.1
+    refine ⟨hr.1, hr.2.1, ?_⟩
+    intro hp
+    have : (readPage c.rows s).1.hasIndex = s.hasIndex := readPage_hasIndex c.rows s
+    simp only [stepAsis] at hp
+    rw [this] at hp
+    exact readPage_agree c.rows s h.1 (h.2.2 hp)
+  | loadIndex =>
+    obtain ⟨⟨h1, h2, h3⟩, h4, h5⟩ := h
+    refine ⟨⟨h1, h2, h3⟩, h4, fun _ => ?_⟩
+    have hp : s.hasIndex = true ∨ c.dict = false := by
+      rcases safeOp_load c s hs with hs | hs
+      · exact Or.inr hs
+      · exact Or.inl hs
+    exact h5 hp
+
+theorem stepAsis_spec (c : Chunk) (hpos : ∀ r ∈ c.rows, 0 < r) (s : St) (op : Op) (h : AInv c s)
+    (hs : SafeOp c s op) :
+    SpecOK c (next c.rows s) op (next c.rows (stepAsis c s op).1) (stepAsis c s op).2 := by
+  cases op with
+  | seek k =>
+    rcases (seekAsis_spec c s k h hs).2 with ⟨h1, h2⟩ | ⟨h1, h2, h3⟩
+    · exact Or.inl ⟨h1, h2⟩
+    · refine Or.inr ⟨h1, ?_, h3⟩
+      show next c.rows (seekAsis c s k).1 = next c.rows s
+      rw [h2]
+  | readPage => exact readOK_spec c _ _ (readPage_spec c.rows hpos s h.1)
+  | loadIndex =>
+    refine ⟨rfl, ?_⟩
+    show next c.rows { s with hasIndex := true } = next c.rows s
+    rfl
+
+/-! ### histories -/
+
+/-- every op of the history is admissible (`ok`) in the state it is applied to -/
+def AllOk (step : St → Op → St × Out) (ok : St → Op → Bool) : St → List Op → Bool
+  | _, [] => true
+  | s, op :: ops => ok s op && AllOk step ok (step s op).1 ops
+
+/-- a step-wise refinement lifts to whole histories -/
+theorem run_refines (c : Chunk) (step : St → Op → St × Out) (I : St → Prop) (ok : St → Op → Bool)
+    (hinv : ∀ s op, I s → ok s op = true → I (step s op).1)
+    (hspec : ∀ s op, I s → ok s op = true →
+      SpecOK c (next c.rows s) op (next c.rows (step s op).1) (step s op).2) :
+    ∀ (ops : List Op) (s : St), I s → AllOk step ok s ops = true →
+      RunOK c (next c.rows s) ops (outs step s ops)
+  | [], s, _, _ => RunOK.nil _
+  | op :: ops, s, hI, hok => by
+    simp only [AllOk, Bool.and_eq_true] at hok
+    have ih := run_refines c step I ok hinv hspec ops (step s op).1 (hinv s op hI hok.1) hok.2
+    exact RunOK.cons (hspec s op hI hok.1) ih
+
+theorem allOk_true (step : St → Op → St × Out) : ∀ (ops : List Op) (s : St),
+    AllOk step (fun _ _ => true) s ops = true
+  | [], _ => rfl
+  | op :: ops, s => by simp [AllOk, allOk_true step ops]
+
+theorem next_init (rows : List Nat) (hi : Bool) : next rows (init hi) = 0 := by
+  simp [next, init, firstRow_zero]
+
+/-- states the repaired reader can be in -/
+inductive ReachFixed (c : Chunk) (hi : Bool) : St → Prop where
+  | init : ReachFixed c hi (init hi)
+  | step {s : St} (op : Op) : ReachFixed c hi s → ReachFixed c hi (stepFixed c s op).1
+
+theorem reachFixed_inv (c : Chunk) (hpos : ∀ r ∈ c.rows, 0 < r) (hi : Bool) (s : St)
+    (h : ReachFixed c hi s) : SInv c.rows s := by
+  induction h with
+  | init => exact init_inv c.rows hi
+  | step op _ ih => exact stepFixed_inv c hpos _ op ih
+
+/-- decidable check of a trace against the reference reader (sound for `RunOK`) -/
+def checkRun (c : Chunk) : Nat → List Op → List Out → Bool
+  | _, [], [] => true
+  | _, .seek k :: ops, .ok :: os => checkRun c k ops os
+  | n, .seek k :: ops, .err :: os => decide (total c < k) && checkRun c n ops os
+  | n, .loadIndex :: ops, .ok :: os => checkRun c n ops os
+  | n, .readPage :: ops, o :: os =>
+    if total c ≤ n then o == .eof && checkRun c n ops os
+    else o == .page (target c.rows n) n (firstRow c.rows (target c.rows n + 1) - n) &&
+         checkRun c (firstRow c.rows (target c.rows n + 1)) ops os
+  | _, _, _ => false
+
+theorem runOK_check (c : Chunk) : ∀ (n : Nat) (ops : List Op) (os : List Out),
+    RunOK c n ops os → checkRun c n ops os = true := by
+  intro n ops os h
+  induction h with
+  | nil n => rfl
+  | @cons n op n' out ops os h1 _ ih =>
+    cases op with
+    | seek k =>
+      rcases h1 with ⟨rfl, rfl⟩ | ⟨rfl, rfl, h3⟩
+      · simpa [checkRun] using ih
+      · simp [checkRun, h3, ih]
+    | loadIndex =>
+      obtain ⟨rfl, rfl⟩ := h1
+      simpa [checkRun] using ih
+    | readPage =>
+      simp only [SpecOK] at h1
+      simp only [checkRun]
+      split
+      · rename_i hc
+        rw [if_pos hc] at h1
+        obtain ⟨rfl, rfl⟩ := h1
+        simp [ih]
+      · rename_i hc
+        rw [if_neg hc] at h1
+        obtain ⟨rfl, rfl, _, _⟩ := h1
+        simp [ih]
 
 end PqModel.Seek
